@@ -7,6 +7,8 @@ import (
 	"go/constant"
 	"go/token"
 	"go/types"
+	"os"
+	"runtime/debug"
 	"sort"
 	"strconv"
 	"strings"
@@ -127,10 +129,11 @@ type deferRec struct {
 }
 
 type FnVC struct {
-	refining   bool      // generating an interface-refinement check (see refine.go)
-	skipped    []string  // interface clauses not compared (they speak about observation ghosts)
-	insliceUse int       // 0 unknown, 1 yes, -1 no (see usesInslice)
-	frameLoop  *loopInfo // set while the frame of a loop with its own modifies clause is generated
+	refining   bool        // generating an interface-refinement check (see refine.go)
+	skipped    []string    // interface clauses not compared (they speak about observation ghosts)
+	insliceUse int         // 0 unknown, 1 yes, -1 no (see usesInslice)
+	frameLoop  *loopInfo   // set while the frame of a loop with its own modifies clause is generated
+	splice     *loopSplice // loops of the contract that now live in helpers (loops.go); nil when the loops are where they were
 	w          *World
 	fn         *ssa.Function
 	c          *Contract
@@ -173,6 +176,10 @@ type frame struct {
 	names             map[string]*sym // source-level names (params, named results, free vars)
 	c                 *Contract       // contract under verification (top frame only)
 	inlined           bool
+	borrow            bool // a helper executed in place whose loops stand for loops of the function under contract (loops.go)
+	borrowNext        bool // the next helper executed in place borrows (set by applyCall for inlineCall)
+	borrowBase        int
+	curCall           ssa.Instruction
 	prefix            string
 	oldSt             *state
 	rangeSt           map[*ssa.Range]*rangeRec
@@ -932,6 +939,11 @@ func (f *frame) findLoops() {
 	sort.Slice(headers, func(i, j int) bool { return headers[i].Index < headers[j].Index })
 	for i, h := range headers {
 		f.loops[h].ordinal = i
+		if sp := f.vc.splice; sp != nil && fn == f.vc.fn {
+			if k, ok := sp.topOrd[h]; ok {
+				f.loops[h].ordinal = k
+			}
+		}
 	}
 }
 
@@ -1016,8 +1028,10 @@ func (w *World) verifyFunction(fn *ssa.Function, c *Contract) (vc *FnVC, err err
 	if len(fn.Blocks) == 0 {
 		return nil, fmt.Errorf("%s: no body", vc.fnName)
 	}
+	vc.planLoopSplice()
 	f := vc.newFrame(fn)
 	f.c = c
+	topFrames[vc] = f
 	st := &state{h: map[string]string{}, epoch: 0, havocked: "false"}
 	// parameters
 	names := c.Params
@@ -1168,6 +1182,9 @@ func (w *World) verifyFunction(fn *ssa.Function, c *Contract) (vc *FnVC, err err
 				found = true
 			}
 		}
+		if vc.splice != nil && vc.splice.helperOrd[k] {
+			found = true
+		}
 		if !found {
 			o := vc.oblige("bind", fmt.Sprintf("loop%d", k), "true", "false", fn.Pos(), fmt.Sprintf("loop %d does not exist", k), c.Props)
 			o.Trivial = false
@@ -1189,6 +1206,9 @@ func (w *World) verifyFunction(fn *ssa.Function, c *Contract) (vc *FnVC, err err
 type genError string
 
 func fail(format string, a ...any) {
+	if os.Getenv("VERIF_DEBUG") != "" {
+		debug.PrintStack()
+	}
 	panic(genError(fmt.Sprintf(format, a...)))
 }
 
@@ -1198,6 +1218,9 @@ func (vc *FnVC) frameObligations(f *frame, guard string, st0, st1 *state, mods [
 	whole := map[string]bool{}
 	single := map[string][]string{} // key -> list of Ref terms
 	env := f.env(st0, st0)
+	if f.borrow {
+		env = f.parent().env(st0, st0)
+	}
 	if vc.frameLoop != nil && vc.frameLoop.entryEnv != nil {
 		// a loop's own modifies clause may name locals and loop-carried variables: evaluate it where the loop starts
 		env = vc.frameLoop.entryEnv.clone()
@@ -1492,10 +1515,11 @@ func headerPos(b *ssa.BasicBlock) token.Pos {
 }
 
 func (f *frame) loopClauses(li *loopInfo) []*Clause {
-	if f.c == nil || f.inlined {
+	lc := f.loopContract()
+	if lc == nil {
 		return nil
 	}
-	return f.c.LoopInv[li.ordinal]
+	return lc.LoopInv[li.ordinal]
 }
 
 // loopModKeys scans the loop body for the heap keys it may assign.
@@ -1665,7 +1689,7 @@ func (f *frame) scanCallMods(li *loopInfo, call ssa.CallInstruction) {
 		if callee != nil && (nativeModel(callee.String()) || valueOnlyLibrary(callee)) {
 			return
 		}
-		if callee != nil && (callee.Parent() != nil || f.smallHelper(callee)) && len(callee.Blocks) > 0 && vc.depth < 3 {
+		if callee != nil && (callee.Parent() != nil || f.smallHelper(callee) || (vc.splice != nil && vc.splice.helpers[callee])) && len(callee.Blocks) > 0 && vc.depth < 3 {
 			// a local closure without contract is inlined at the call: its effects are those of its body
 			vc.depth++
 			sub := vc.newFrame(callee)
@@ -1803,8 +1827,7 @@ func (f *frame) enterLoop(li *loopInfo, b *ssa.BasicBlock, preds []*ssa.BasicBlo
 		}
 		return m
 	}
-	envE := f.env(pre, f.oldSt)
-	envE.pointBlock, envE.pointIdx = b, 0
+	envE := f.specEnv(pre, b)
 	for k, v := range names(entryVals) {
 		envE.vars[k] = v
 	}
@@ -1832,10 +1855,11 @@ func (f *frame) enterLoop(li *loopInfo, b *ssa.BasicBlock, preds []*ssa.BasicBlo
 	} else {
 		var lmods []ModLoc
 		hasLoopMod := false
-		if f.c != nil && !f.inlined {
-			lmods, hasLoopMod = f.c.LoopMod[li.ordinal]
-			if !hasLoopMod && f.c.HasMod {
-				lmods = f.c.Modifies
+		lc := f.loopContract()
+		if lc != nil {
+			lmods, hasLoopMod = lc.LoopMod[li.ordinal]
+			if !hasLoopMod && lc.HasMod {
+				lmods = lc.Modifies
 				hasLoopMod = true
 			}
 		}
@@ -1843,13 +1867,12 @@ func (f *frame) enterLoop(li *loopInfo, b *ssa.BasicBlock, preds []*ssa.BasicBlo
 		whole := map[string]bool{}
 		star := !hasLoopMod
 		if hasLoopMod {
-			env0 := f.env(f.oldSt, f.oldSt)
-			if _, own := f.c.LoopMod[li.ordinal]; own {
-				env0 = f.env(pre, f.oldSt)
+			env0 := f.specEnvAtEntry()
+			if _, own := lc.LoopMod[li.ordinal]; own {
+				env0 = f.specEnv(pre, b)
 				for k, v := range names(entryVals) {
 					env0.vars[k] = v
 				}
-				env0.pointBlock, env0.pointIdx = b, 0
 				f.bindEnclosing(li, env0)
 			}
 			for _, m := range lmods {
@@ -1887,7 +1910,7 @@ func (f *frame) enterLoop(li *loopInfo, b *ssa.BasicBlock, preds []*ssa.BasicBlo
 				// state, may differ from the reference state (function entry, or loop entry when the loop
 				// has its own modifies clause).  The back-edge frame obligation checks exactly this.
 				ref := f.oldSt
-				if _, own := f.c.LoopMod[li.ordinal]; own {
+				if _, own := lc.LoopMod[li.ordinal]; own {
 					ref = pre
 				}
 				h0 := vc.hget(ref, k)
@@ -1921,8 +1944,7 @@ func (f *frame) enterLoop(li *loopInfo, b *ssa.BasicBlock, preds []*ssa.BasicBlo
 		vc.wf(reach, s.t, phi.Type(), cur, 0)
 	}
 	// assume invariants
-	envH := f.env(cur, f.oldSt)
-	envH.pointBlock, envH.pointIdx = b, 0
+	envH := f.specEnv(cur, b)
 	for k, v := range names(li.phiSyms) {
 		envH.vars[k] = v
 	}
@@ -2025,8 +2047,7 @@ func (f *frame) closeLoops(visited map[*ssa.BasicBlock]bool) {
 		}
 		st := vc.mergeStates(conds, sts)
 		cond := vc.define(fmt.Sprintf("latch%d", li.ordinal), "Bool", or(conds...))
-		env := f.env(st, f.oldSt)
-		env.pointBlock, env.pointIdx = b, 0
+		env := f.specEnv(st, b)
 		env.entryEnv = li.entryEnv
 		f.bindEnclosing(li, env)
 		for _, in := range b.Instrs {
@@ -2064,8 +2085,8 @@ func (f *frame) closeLoops(visited map[*ssa.BasicBlock]bool) {
 			vc.oblige(fmt.Sprintf("inv-keep%d", li.ordinal), label, cond, env.boolExpr(cl.E), headerPos(b), cl.Src, cl.Props)
 		}
 		// per-iteration (two-state) clauses: iter(e) is the value of e at the head of this iteration
-		if f.c != nil && !f.inlined {
-			ienv := f.env(li.headSt, f.oldSt)
+		if lc := f.loopContract(); lc != nil {
+			ienv := f.specEnv(li.headSt, b)
 			for phi, s := range li.phiSyms {
 				if phi.Comment == "rangeindex" {
 					ienv.vars["idx"] = s
@@ -2073,13 +2094,12 @@ func (f *frame) closeLoops(visited map[*ssa.BasicBlock]bool) {
 					ienv.vars[phi.Comment] = s
 				}
 			}
-			ienv.pointBlock, ienv.pointIdx = b, 0
 			// idx denotes the element processed in this iteration, inside and outside iter()
 			if v, ok := env.vars["idx"]; ok {
 				ienv.vars["idx"] = v
 			}
 			env.iterEnv = ienv
-			for i, cl := range f.c.LoopStep[li.ordinal] {
+			for i, cl := range lc.LoopStep[li.ordinal] {
 				label := cl.Label
 				if label == "" {
 					label = fmt.Sprintf("s%d", i)
@@ -2088,13 +2108,13 @@ func (f *frame) closeLoops(visited map[*ssa.BasicBlock]bool) {
 			}
 		}
 		// loop frame: relative to the function entry (or loop entry when the loop has its own modifies)
-		if f.c != nil && !f.inlined && !li.modAll {
-			if lm, own := f.c.LoopMod[li.ordinal]; own {
+		if lc := f.loopContract(); lc != nil && !li.modAll {
+			if lm, own := lc.LoopMod[li.ordinal]; own {
 				vc.frameLoop = li
-				vc.frameObligations(f, cond, li.preSt, st, lm, fmt.Sprintf("loopframe%d", li.ordinal), f.c.Props, false)
+				vc.frameObligations(f, cond, li.preSt, st, lm, fmt.Sprintf("loopframe%d", li.ordinal), lc.Props, false)
 				vc.frameLoop = nil
-			} else if f.c.HasMod {
-				vc.frameObligations(f, cond, f.oldSt, st, f.c.Modifies, fmt.Sprintf("loopframe%d", li.ordinal), f.c.Props, false, li.preSt)
+			} else if lc.HasMod {
+				vc.frameObligations(f, cond, f.oldSt, st, lc.Modifies, fmt.Sprintf("loopframe%d", li.ordinal), lc.Props, false, li.preSt)
 			}
 		}
 	}
